@@ -77,6 +77,26 @@ EXTRA3={
 "C17": " A result that is neither Ok nor an error after a failed dependency is a violation too.",
 "C19": " Four-thread one-operation families (container; Counter / Flag) at preemption bound 1 (thorough 2); every draining program also from an initially empty container; the free-running pass runs under a time limit and a hang is reported.",
 }
+EXTRA4={
+"C01": " Calls an ordinary account signs in the arrival layout of a cross-shard transfer (both accounts present).",
+"C02": " The same forged arrivals; sums of AddQuantity crossing 2^64 were already in the amounts profile.",
+"C03": " Every gated call again with the refund flag and under the callback / transfer-and-execute call types.",
+"C04": " Repeated controls (un-freeze of a non-frozen account, freeze of a frozen one, likewise pause); same-shard returns by a local contract flagged return-after-error (exposed D12).",
+"C05": " Calls naming (S,258) against the aliased holding (S||01,2); a freeze marker on the key of the nonce issued next.",
+"C07": " A contract as creator handing over across shards; role grants while a hand-over is in flight; the returned nonce read through GetFirstReturnData.",
+"C08": " Forged arrivals; two NFTs with rich / sparse metadata in one multi-transfer.",
+"C10": " A continuation carries the call type of the call it continues (plain transfers under every call type); cross-shard SetUserName with exactly its price ... twice its price.",
+"C11": " Freeze / un-freeze / wipe on the system account after a pause; freeze markers under dash-bearing identifiers, wiped and released.",
+"C12": " The enumeration runs in a child process: a panic or fatal runtime fault inside the library is reported as a violation.",
+"C13": " Second stage also runs H6: every kind against itself with other argument sizes, both successful, each as alone (gas, effect, emitted data).",
+"C14": " MarshalTo into a longer buffer; child process as for C12.",
+"C15": " Zero-quantity transfers through all three functions.",
+"C16": " Priced classes whose attributes / URI equal the stored ones; a second factory refusing an accepted schedule is a violation.",
+"C19": " H6 (see C13); the explorer runs as six processes over disjoint harness sub-lists.",
+"C20": " A second code / metadata value and a distinct balance among the accounts merged last; child process as for C12.",
+}
+for k,v in EXTRA4.items():
+    EXTRA3[k]=EXTRA3.get(k,"")+v
 for k,v in EXTRA3.items():
     EXTRA2[k]=EXTRA2.get(k,"")+v
 for k,v in EXTRA2.items():
